@@ -50,15 +50,18 @@ const (
 	smgPing
 	smgMaxStreams
 	smgStreamFin
+	smgMalformed
 )
 
-var smgNames = []string{"STREAM", "RESET_STREAM", "STREAM_DATA_BLOCKED", "STOP_SENDING", "MAX_STREAM_DATA", "PING", "MAX_STREAMS", "STREAM+FIN"}
-var smgCoq = []string{"GStream", "GResetStream", "GStreamDataBlocked", "GStopSending", "GMaxStreamData", "GPing", "GMaxStreams", "GStreamFin"}
+var smgNames = []string{"STREAM", "RESET_STREAM", "STREAM_DATA_BLOCKED", "STOP_SENDING", "MAX_STREAM_DATA", "PING", "MAX_STREAMS", "STREAM+FIN", "MALFORMED"}
+var smgCoq = []string{"GStream", "GResetStream", "GStreamDataBlocked", "GStopSending", "GMaxStreamData", "GPing", "GMaxStreams", "GStreamFin", "GMalformed"}
 
 func smgFrameCoq(f quic.VerifSGFrame) string {
 	switch f.Kind {
 	case smgPing:
 		return "GPing"
+	case smgMalformed:
+		return "GMalformed"
 	case smgMaxStreams:
 		return u.App("GMaxStreams", u.B(f.Uni), u.Z(f.ID))
 	}
@@ -69,6 +72,8 @@ func smgFrameText(f quic.VerifSGFrame) string {
 	switch f.Kind {
 	case smgPing:
 		return "PING"
+	case smgMalformed:
+		return "MALFORMED(unknown frame type)"
 	case smgMaxStreams:
 		return fmt.Sprintf("MAX_STREAMS(uni=%v,%d)", f.Uni, f.ID)
 	}
@@ -106,11 +111,13 @@ func (sp *smgSpec) complete(id int64) {
 	}
 }
 
-// expect: verdict of one frame; 0 ok, 1 STREAM_STATE_ERROR, 2 STREAM_LIMIT_ERROR.
+// expect: verdict of one frame; 0 ok, 1 STREAM_STATE_ERROR, 2 STREAM_LIMIT_ERROR, 8 FRAME_ENCODING_ERROR.
 func (sp *smgSpec) expect(f quic.VerifSGFrame) int {
 	switch f.Kind {
 	case smgPing:
 		return 0
+	case smgMalformed:
+		return 8
 	case smgMaxStreams:
 		if t := b2i(f.Uni); f.ID > sp.peerMax[t] {
 			sp.peerMax[t] = f.ID
@@ -219,7 +226,7 @@ func smgRun(w *bufio.Writer, c smgCase, dist map[string]int, failed map[string]b
 		cancel: map[int64]bool{}, final: map[int64]bool{}, done: map[int64]bool{}}
 	var held, old []smgHeld
 	var steps, outs []string
-	names := []string{"no error", "STREAM_STATE_ERROR", "STREAM_LIMIT_ERROR"}
+	names := map[int]string{0: "no error", 1: "STREAM_STATE_ERROR", 2: "STREAM_LIMIT_ERROR", 8: "FRAME_ENCODING_ERROR"}
 	failedPacket := false
 	completions, packets := 0, 0
 	emit := func(step string, code int64, frames []quic.VerifSMFrame) {
@@ -278,11 +285,27 @@ func smgRun(w *bufio.Writer, c smgCase, dist map[string]int, failed map[string]b
 			if code == -2 {
 				monfail("panic", msg)
 			}
+			// a malformed frame behind the failing one: the error a tracer-less connection reports is the
+			// failing frame's; with a tracer the parser goes on and its error wins (observation, not
+			// demanded either way: the connection must fail, with one of the two)
+			later := false
+			if bad >= 0 {
+				for _, f := range st.frames[bad+1:] {
+					later = later || f.Kind == smgMalformed
+				}
+			}
 			switch {
 			case want != 0 && class == 0:
 				monfail("error-masked", fmt.Sprintf("%s must close the connection with %s, but the packet was handled without error", smgFrameText(st.frames[bad]), names[want]))
+			case want != class && later && want != 8 && class == 8:
+				if !c.tracer {
+					monfail("verdict", fmt.Sprintf("without a tracer the packet must fail with %s, got FRAME_ENCODING_ERROR", names[want]))
+				}
+				dist["error-class-changed-by-tracer-and-later-malformed-frame"]++
 			case want != class:
 				monfail("verdict", fmt.Sprintf("expected %s, got error class %d (code %d: %s)", names[want], class, code, msg))
+			case later && c.tracer && want != 8:
+				dist["tracer-and-later-malformed-frame-but-first-error-reported"]++
 			}
 			*sp = *trial
 			for t := 0; t < 2; t++ {
@@ -476,6 +499,8 @@ func runStreamsGlue(w *bufio.Writer, seed uint64, n int, _ []string) {
 				{Kind: smgStopSending, ID: pu}, {Kind: smgMaxStreamData, ID: lb}, {Kind: smgStopSending, ID: lu},
 			} {
 				smgRun(w, smgCase{client, tracer, [2]int64{2, 2}, []smgStep{smgPacketStep(off, valid)}}, dist, failed)
+				smgRun(w, smgCase{client, tracer, [2]int64{2, 2}, []smgStep{smgPacketStep(off, quic.VerifSGFrame{Kind: smgMalformed})}}, dist, failed)
+				smgRun(w, smgCase{client, tracer, [2]int64{2, 2}, []smgStep{smgPacketStep(valid, off, valid, quic.VerifSGFrame{Kind: smgMalformed}, valid)}}, dist, failed)
 				smgRun(w, smgCase{client, tracer, [2]int64{2, 2}, []smgStep{smgPacketStep(valid), smgPacketStep(quic.VerifSGFrame{Kind: smgPing}, off, valid, valid)}}, dist, failed)
 			}
 			// completion through the connection: the slot of a finished stream is re-issued, for both
@@ -567,6 +592,9 @@ func runStreamsGlue(w *bufio.Writer, seed uint64, n int, _ []string) {
 						fr = quic.VerifSGFrame{Kind: []int{smgStreamFin, smgResetStream}[r.Intn(2)], ID: first + 4*idx}
 					case k < 12:
 						fr = quic.VerifSGFrame{Kind: smgPing}
+						if !benign && r.Chance(1, 2) {
+							fr = quic.VerifSGFrame{Kind: smgMalformed}
+						}
 					case k < 14:
 						fr = quic.VerifSGFrame{Kind: smgMaxStreams, Uni: uni, ID: r.Pick(0, 1, 2, 3, 5)}
 					default: // any stream-related frame for any class of ID, around the boundaries
